@@ -307,8 +307,54 @@ func rulePublication(c *core.Ctx) {
 			cmp, isCmp := a.AsCmp()
 			return isCmp && strings.Contains(core.ExprStr(cmp.L), "len(refs)") && (cmp.Op == token.GTR || cmp.Op == token.NEQ)
 		})
+		refsObj := core.ObjOf(info, cs[0].Call.Args[0])
+		if !guard && refsObj != nil {
+			// the same fact in another form: the path condition of the call
+			// (boolean locals replaced by their single definition) implies
+			// len(<the slice handed over>) > 0
+			subst := map[types.Object]ast.Expr{}
+			var lenCall ast.Expr
+			ast.Inspect(fn.Decl.Body, func(m ast.Node) bool {
+				if as, ok := m.(*ast.AssignStmt); ok && as.Tok == token.DEFINE && len(as.Lhs) == 1 && len(as.Rhs) == 1 {
+					if obj := core.ObjOf(info, as.Lhs[0]); obj != nil && isBoolObj(obj) && len(core.AssignsTo(info, fn.Decl, obj)) == 1 {
+						subst[obj] = as.Rhs[0]
+					}
+				}
+				if call, ok := m.(*ast.CallExpr); ok && core.CalleeKey(info, call) == "builtin.len" && len(call.Args) == 1 && core.ObjOf(info, call.Args[0]) == refsObj {
+					lenCall = call
+				}
+				return true
+			})
+			if lenCall != nil {
+				want := &ast.BinaryExpr{X: lenCall, Op: token.GTR, Y: &ast.BasicLit{Kind: token.INT, Value: "0"}}
+				nonNeg := core.Atom{Expr: &ast.BinaryExpr{X: lenCall, Op: token.GEQ, Y: &ast.BasicLit{Kind: token.INT, Value: "0"}}}
+				holds, _, decided := c.Prog.Implies(core.Formula{Fn: fn, Atoms: append(g.DominatingAtoms(cs[0].V), nonNeg), Subst: subst}, core.Formula{Fn: fn, Atoms: []core.Atom{{Expr: want}}, Subst: subst})
+				guard = decided && holds
+			}
+		}
 		o.Require(guard, "publication is not restricted to objects reached through references")
-		o.Require(strings.Contains(core.ExprStr(cs[0].Call.Args[0]), "refs") && core.ExprStr(cs[0].Call.Args[2]) == "res", "cacheStoreOrLoad must be given all references and the decoded value")
+		// all references followed (the slice every followed reference is appended to) and the decoded value
+		appended := false
+		if refsObj != nil {
+			for _, d := range core.AssignsTo(info, fn.Decl, refsObj) {
+				if as, ok := d.(*ast.AssignStmt); ok && len(as.Rhs) == 1 {
+					if call, ok := ast.Unparen(as.Rhs[0]).(*ast.CallExpr); ok && core.CalleeKey(info, call) == "builtin.append" {
+						appended = true
+					}
+				}
+			}
+		}
+		decoded := false
+		if vo := core.ObjOf(info, cs[0].Call.Args[2]); vo != nil {
+			for _, d := range core.AssignsTo(info, fn.Decl, vo) {
+				if as, ok := d.(*ast.AssignStmt); ok && len(as.Rhs) == 1 {
+					if call, ok := ast.Unparen(as.Rhs[0]).(*ast.CallExpr); ok && core.Callee(info, call) == nil && core.CalleeKey(info, call) != "builtin.append" {
+						decoded = true // the result of the decode function value
+					}
+				}
+			}
+		}
+		o.Require(appended && decoded, "cacheStoreOrLoad must be given all references and the decoded value")
 		// cacheGet before Get
 		cg := callVertices(g, "pdf.(*Extractor).cacheGet")
 		get := callVerticesSuffix(g, ".Get")
@@ -523,7 +569,7 @@ func ruleReaderImmutable(c *core.Ctx) {
 					}
 					n++
 					o.At(fn.Site(l, "writes Reader."+root.Sel.Name))
-					if _, ok := constructors[fn.Key]; !ok {
+					if !allowedOrOnlyCalledBy(c, fn, func(k string) bool { _, ok := constructors[k]; return ok }, 0) {
 						o.FailAt(fn.Site(l, ""), "%s writes Reader.%s after construction", fn.Key, root.Sel.Name)
 					}
 				}
@@ -545,8 +591,8 @@ func ruleReaderImmutable(c *core.Ctx) {
 		if !core.IsNamed(fn.Info().TypeOf(fn.Decl.Recv.List[0].Type), "pdf", "Reader") {
 			continue
 		}
-		if _, isCons := constructors[fn.Key]; isCons {
-			continue
+		if allowedOrOnlyCalledBy(c, fn, func(k string) bool { _, ok := constructors[k]; return ok }, 0) {
+			continue // a constructor, or a helper only constructors call
 		}
 		nMeth++
 		c.Check(rule, fn.Key+"/no-store", "the method stores nothing through memory reachable from its Reader (SSA may-write analysis over static calls and pdf's own interface implementations): concurrent calls share the Reader", func(o *core.Ob) {
